@@ -510,6 +510,49 @@ func execC10Bubble(r *kernel.Run, s C10Spec) {
 			}
 		}
 	}
+	// --- Byzantine issuer: a genuinely signed accumulator without a value (Nu absent or 0), at the witness's
+	// index (signed later) and at the next index with a genuine event list. Whatever the witness answers, it
+	// must not panic and must stay valid.
+	if wanted(s.OnlyFault, "byzantine-issuer:accumulator-without-value") {
+		wi := int(wits[s.WitAt].SignedAccumulator.Accumulator.Index)
+		for vi, nu := range []*big.Int{nil, big.NewInt(0)} {
+			for _, idx := range []int{wi, min(wi+1, ra.Head())} {
+				acc := *ra.Accs[idx]
+				acc.Nu = nu
+				acc.Time += 7200
+				sacc, err := acc.Sign(key.Sk)
+				if err != nil {
+					continue
+				}
+				var evl []*revocation.Event
+				if idx > wi {
+					evl = evs(ra, wi+1, idx)
+				}
+				u := &revocation.Update{SignedAccumulator: &revocation.SignedAccumulator{Data: sacc.Data, PKCounter: sacc.PKCounter}, Events: evl}
+				b, err := json.Marshal(u)
+				if err != nil {
+					continue
+				}
+				r.Fault("substitution")
+				r.Eval(1)
+				du, derr := fromJSON(b)()
+				if derr != nil {
+					r.Probe("decode-error")
+					continue
+				}
+				wt := freshWitness()
+				var uerr error
+				det := map[string]any{"fault": "byzantine-issuer:accumulator-without-value", "variant": vi}
+				if p, fr := guardFrame(func() { uerr = wt.Update(pk, du) }); p != "" {
+					r.Violate("C10:panic:Witness.Update:"+fr, det, "an issuer-signed accumulator whose value is %v makes Witness.Update panic: %s", nu, p)
+					continue
+				}
+				if verr := wt.Verify(pk); verr != nil {
+					r.Violate("C10:witness-invalid-after-accepted-update", det, "an issuer-signed accumulator whose value is %v (index %d) returned %v and left the witness invalid: %v", nu, idx, uerr, verr)
+				}
+			}
+		}
+	}
 	// --- one decoded message object first verified under the key it was signed with (a verifier serving
 	// several issuers), then offered to this key's receivers
 	if wanted(s.OnlyFault, "object-verified-under-other-key-first") && ora.Head() >= 0 {
